@@ -781,6 +781,73 @@ Proof.
   split; [vm_compute; reflexivity|]. repeat split; vm_compute; reflexivity.
 Qed.
 
+(* ------------------------------------------------------------------ the summary statement *)
+Lemma find_last_in {V} (l : list (str * V)) n v : find_last l n = Some v -> exists k, In (k, v) l.
+Proof.
+  induction l as [|[k w] r IH]; cbn [find_last]; [discriminate|].
+  destruct (find_last r n) as [u|] eqn:E.
+  - intros H. injection H as ->. destruct (IH eq_refl) as [k' Hk]. exists k'. right. exact Hk.
+  - destruct (str_eqb n k); [|discriminate]. intros H. injection H as ->. exists k. left. reflexivity.
+Qed.
+
+Lemma spec_ext {V} (cmp : V -> V -> comparison) (I J : str -> option V) (f : list (list (rel V))) :
+  (forall n, I n = J n) -> satisfied_spec cmp I f = satisfied_spec cmp J f.
+Proof.
+  intros H. unfold satisfied_spec. induction f as [|e f IHf]; [reflexivity|]. cbn [forallb]. rewrite IHf. f_equal.
+  induction e as [|r e IH]; [reflexivity|]. cbn [existsb]. rewrite IH. f_equal. unfold rel_ok. rewrite H. reflexivity.
+Qed.
+
+Definition safe_readable (v : version) : Prop := ver_safe v = true /\ readable_version v.
+Definition good_rel (r : rel version) : Prop :=
+  match r_ver r with Some (_, v) => safe_readable v | None => True end.
+
+(* one field, one assignment, every evaluator and every lookup form: the same answer, and it is
+   the decision table *)
+Theorem deb_main (f : list (list (rel version))) (asg : list (str * version)) :
+  Forall (Forall good_rel) f -> Forall (fun kv => ver_safe (snd kv) = true) asg ->
+  let installed := find_last asg in
+  let answer := deb_spec installed f in
+  exists t_new t_set,
+    deb_build_field f = Ok t_new /\ deb_sv_field f = Ok t_set /\
+    deb_ll_sat t_new (LFn installed) = Ok answer /\ deb_ll_sat t_new (LMap (hm_of_list asg)) = Ok answer /\
+    deb_ll_sat t_set (LFn installed) = Ok answer /\ deb_ll_sat t_set (LMap (hm_of_list asg)) = Ok answer /\
+    deb_lossy_sat f (LFn installed) = Ok answer /\ deb_lossy_sat f (LMap (hm_of_list asg)) = Ok answer /\
+    (forall n v, asg = [(n, v)] ->
+       deb_ll_sat t_new (LPair n v) = Ok answer /\ deb_ll_sat t_set (LPair n v) = Ok answer /\
+       deb_lossy_sat f (LPair n v) = Ok answer).
+Proof.
+  intros Hf Ha installed answer.
+  assert (Hread : Forall (Forall readable_rel) f).
+  { eapply Forall_impl; [|exact Hf]. intros e He. eapply Forall_impl; [|exact He].
+    intros r. unfold good_rel, readable_rel. destruct (r_ver r) as [[o v]|]; [intros [_ H]; exact H|trivial]. }
+  assert (Hdom : field_dom version deb_ok f).
+  { eapply Forall_impl; [|exact Hf]. intros e He. eapply Forall_impl; [|exact He].
+    intros r. unfold good_rel, rel_dom. destruct (r_ver r) as [[o v]|]; [intros [H _]; exact H|trivial]. }
+  destruct (deb_constructed f Hread) as [(t1 & B1 & V1) (t2 & B2 & V2)].
+  assert (Hfn : lookup_dom version deb_ok (LFn installed)).
+  { intros n v H. cbn [lookup_version] in H. destruct (find_last_in asg n v H) as [k Hk].
+    rewrite Forall_forall in Ha. apply (Ha (k, v) Hk). }
+  assert (Hsame : forall n, lookup_version (LMap (hm_of_list asg)) n = lookup_version (LFn installed) n).
+  { intros n. apply lookup_map_of_list. }
+  exists t1, t2. split; [exact B1|]. split; [exact B2|].
+  destruct (deb_sat_spec t1 f (LFn installed) V1 Hdom Hfn) as [L1 Y1].
+  destruct (deb_sat_spec t2 f (LFn installed) V2 Hdom Hfn) as [L2 _].
+  cbn [lookup_version] in L1, L2, Y1. fold installed in L1, L2, Y1.
+  split; [exact L1|]. split.
+  { unfold deb_ll_sat. rewrite (ll_sat_ext version ver_cmp parse_version t1 _ _ Hsame). exact L1. }
+  split; [exact L2|]. split.
+  { unfold deb_ll_sat. rewrite (ll_sat_ext version ver_cmp parse_version t2 _ _ Hsame). exact L2. }
+  split; [exact Y1|]. split.
+  { unfold deb_lossy_sat. rewrite (lossy_sat_ext version ver_cmp f _ _ Hsame). exact Y1. }
+  intros n v ->.
+  assert (Hp : forall m, lookup_version (LPair n v) m = lookup_version (LFn installed) m).
+  { intros m. subst installed. cbn [lookup_version find_last]. reflexivity. }
+  split; [|split].
+  - unfold deb_ll_sat. rewrite (ll_sat_ext version ver_cmp parse_version t1 _ _ Hp). exact L1.
+  - unfold deb_ll_sat. rewrite (ll_sat_ext version ver_cmp parse_version t2 _ _ Hp). exact L2.
+  - unfold deb_lossy_sat. rewrite (lossy_sat_ext version ver_cmp f _ _ Hp). exact Y1.
+Qed.
+
 (* ------------------------------------------------------------------ statements assembled for props/C12.v *)
 Lemma c12_spec :
   forall (V : Type) (vcmp : V -> V -> res comparison) (vparse : str -> option V)
